@@ -139,7 +139,7 @@ def is_int_poly(p):
     return not any(_has_float_marker(a) for a in p.atoms())
 
 
-def canon(kind, p):
+def canon(kind, p, floaty=False):
     """Canonical comparison normal form.  For integer (unsigned) polynomials:
     p > 0 becomes p - 1 >= 0; x == 0 / x != 0 for a single unsigned atom x become
     -x >= 0 / x - 1 >= 0; eq0/ne0 get a canonical sign."""
@@ -148,7 +148,7 @@ def canon(kind, p):
             first = sorted(p.m.items(), key=lambda kv: repr(kv[0]))[0]
             if first[1] < 0:
                 p = -p
-    if not is_int_poly(p):
+    if floaty or not is_int_poly(p):
         return (kind, p)
     if kind == "gt0":
         return ("ge0", p - Poly.const(1))
@@ -177,7 +177,9 @@ def NE0(p):
 
 
 def cmp_nf(op, a, b, atom_map=None):
-    return canon(*_cmp_nf_raw(op, a, b, atom_map))
+    # a comparison with a float literal (or any float-marked operand) is a float comparison even if the other side
+    # is an opaque term: no integer canonicalisation (x > 1.0 is not x >= 2)
+    return canon(*_cmp_nf_raw(op, a, b, atom_map), floaty=_has_float_marker(a) or _has_float_marker(b))
 
 
 def _cmp_nf_raw(op, a, b, atom_map=None):
@@ -219,10 +221,11 @@ def fact_nf(fact, atom_map=None):
     atom, pol = fact
     if atom[0] == "cmp":
         raw = _cmp_nf_raw(atom[1], atom[2], atom[3], atom_map)
+        fl = _has_float_marker(atom[2]) or _has_float_marker(atom[3])
         if pol:
-            return canon(*raw)
+            return canon(*raw, floaty=fl)
         k, p = raw
-        return canon(*{"gt0": ("ge0", -p), "ge0": ("gt0", -p), "eq0": ("ne0", p), "ne0": ("eq0", p)}[k])
+        return canon(*{"gt0": ("ge0", -p), "ge0": ("gt0", -p), "eq0": ("ne0", p), "ne0": ("eq0", p)}[k], floaty=fl)
     return (atom, pol)
 
 
